@@ -582,6 +582,36 @@ pub fn shape_numeric(max_keys: usize) -> BoxedStrategy<Pairs> {
         .boxed()
 }
 
+/// Shape 7: cross product prefixes x suffixes — the same (possibly wide)
+/// subtree hangs below several prefixes, so equivalent nodes with many
+/// transitions occur (sharing of wide nodes, repeated suffix chains).
+pub fn shape_product() -> BoxedStrategy<Pairs> {
+    (
+        vec(vec(b'p'..=b's', 1..=2), 2..=6),                       // prefixes
+        prop_oneof![2 => 1usize..=8, 2 => 30usize..=40, 1 => Just(256usize), 1 => 60usize..=70], // width of the shared subtree
+        any::<u8>(),
+        vec(b'a'..=b'b', 0..=3),                                    // common tail below every child
+        prop_oneof![3 => Just(0u64), 1 => value_strategy()],        // per-suffix value component
+        any::<bool>(),
+    )
+        .prop_map(|(prefixes, width, first, tail, v, set_like)| {
+            let mut ps: Pairs = vec![];
+            for (pi, p) in prefixes.iter().enumerate() {
+                for i in 0..width {
+                    let mut k = p.clone();
+                    k.push(first.wrapping_add(i as u8));
+                    k.extend_from_slice(&tail);
+                    // identical values below every prefix keep the subtrees equivalent in maps too
+                    let val = if set_like { 0 } else { v.wrapping_add(i as u64 % 3) };
+                    let _ = pi;
+                    ps.push((k, val));
+                }
+            }
+            ps
+        })
+        .boxed()
+}
+
 /// The weighted union of the small shapes (1–5), sorted and de-duplicated,
 /// with a value pattern applied.
 pub fn small_pairs(max_keys: usize, long_len: usize) -> BoxedStrategy<Pairs> {
@@ -591,6 +621,7 @@ pub fn small_pairs(max_keys: usize, long_len: usize) -> BoxedStrategy<Pairs> {
         2 => with_empty(shape_fanout()),
         1 => with_empty(shape_long(long_len)),
         1 => with_empty(shape_numeric(max_keys)),
+        1 => shape_product(),
     ];
     (shape, pattern_strategy())
         .prop_map(|(ps, pat)| {
@@ -742,7 +773,7 @@ pub fn enum_values(pattern: u64, keys: &[Vec<u8>]) -> Pairs {
 
 #[derive(Clone, Debug)]
 pub struct Recipe {
-    pub kind: u8, // 0 numeric, 1 hashed suffix, 2 words-like
+    pub kind: u8, // 0 numeric, 1 hashed suffix, 2 words-like, 3 hashed suffix with proper-prefix pairs (k, k+x)
     pub n: u64,
     pub seed: u64,
     pub fanout: u8,
@@ -815,7 +846,14 @@ impl Recipe {
                         buf.push(b'a' + (h % fan) as u8);
                         h = mix(h, 1);
                     }
-                    f(&buf, self.value(i));
+                    if self.kind == 3 {
+                        // proper-prefix pairs: k, then k + "x" (two keys per step)
+                        f(&buf, self.value(i).wrapping_mul(2));
+                        buf.push(b'a' + (h % fan) as u8);
+                        f(&buf, self.value(i).wrapping_mul(2).wrapping_add(1));
+                    } else {
+                        f(&buf, self.value(i));
+                    }
                 }
             }
         }
